@@ -9,7 +9,7 @@ from vf.core import Verdict, lib, mk_basis, nfunc
 from vf.ref import r3
 from vf.run import SubCheck
 
-from gbasis.integrals.overlap import overlap_integral
+from gbasis.integrals.overlap import Overlap, is_integral_screened, overlap_integral
 
 RULE = ("Hypothesis draws bases of 2-5 generalized mixed-type shells (l 0..3, K 1-4, exponents 0.05-500), two or three "
         "tolerances log-uniform in 1e-16..0.5, and places one shell pair at (1 +- 1e-9) x the documented cutoff "
@@ -94,6 +94,14 @@ def judge(case):
                     v.classes.append("pair-at-cutoff")
                 if rel <= 1e-12:
                     continue  # rounding-dependent: not judged
+                # the public predicate and the shell-pair kernel must follow the same documented rule
+                flag = lib(is_integral_screened, bas[i], bas[j], float(tol))
+                if bool(flag) != bool(dist[i, j] > c):
+                    return v.fail(f"is_integral_screened(shell {i}, shell {j}, {tol:.3e}) = {flag} but distance {dist[i, j]!r} vs cutoff {c!r}")
+                if i <= j and (i + j) % 3 == 0:
+                    kb = lib(Overlap.construct_array_contraction, bas[i], bas[j], tol_screen=float(tol))
+                    if bool(dist[i, j] > c) != (not kb.any()) and lib(Overlap.construct_array_contraction, bas[i], bas[j]).any():
+                        return v.fail(f"Overlap.construct_array_contraction(shell {i}, shell {j}, tol_screen={tol:.3e}) does not follow the cutoff")
                 if dist[i, j] > c:
                     if not is_zero:
                         return v.fail(f"tol {tol:.3e}: shells {i},{j} at distance {dist[i, j]!r} > cutoff {c!r} but the block is not zero "
